@@ -93,9 +93,46 @@ pub fn alphabet(enc: &'static Encoding) -> Vec<u32> {
         }
         EncAlgo::Utf8 => a.extend_from_slice(&[0x7FF, 0x800, 0xFFFF, 0x10000, 0x10FFFF]),
     }
+    a.extend(length_class_reps(enc));
     a.sort();
     a.dedup();
     a
+}
+
+/// First and last mappable character of every (UTF-8 length, encoded length) class of an encoder -
+/// the classes its worst-case buffer-length formulas and space checks are written in terms of
+/// (e.g. EUC-JP: a two-byte UTF-8 character that becomes two bytes, like U+00A7).  Cached.
+pub fn length_class_reps(enc: &'static Encoding) -> Vec<u32> {
+    use std::collections::{BTreeMap, HashMap};
+    use std::sync::{Mutex, OnceLock};
+    static CACHE: OnceLock<Mutex<HashMap<usize, Vec<u32>>>> = OnceLock::new();
+    let key = enc as *const Encoding as usize;
+    let cache = CACHE.get_or_init(|| Mutex::new(HashMap::new()));
+    if let Some(v) = cache.lock().unwrap().get(&key) {
+        return v.clone();
+    }
+    let algo = enc_algo_for(enc);
+    let mut classes: BTreeMap<(usize, usize), (u32, u32)> = BTreeMap::new();
+    for c in (0x80u32..0x30000).chain(0xE0000..0xE0100).chain(0x10FF00..0x110000) {
+        if (0xD800..=0xDFFF).contains(&c) {
+            continue;
+        }
+        let o = crate::model_enc::encode(algo, &[c], false);
+        if !o.unmappables.is_empty() {
+            continue;
+        }
+        let k = (char::from_u32(c).unwrap().len_utf8(), o.bytes.len());
+        classes.entry(k).and_modify(|e| e.1 = c).or_insert((c, c));
+    }
+    let mut v: Vec<u32> = Vec::new();
+    for (_, (a, b)) in classes {
+        v.push(a);
+        v.push(b);
+    }
+    v.sort();
+    v.dedup();
+    cache.lock().unwrap().insert(key, v.clone());
+    v
 }
 
 pub const CAPS_RAW: [usize; 12] = [4, 5, 6, 7, 8, 9, 10, 15, 16, 17, 33, 64];
